@@ -3,6 +3,7 @@ mod explore;
 mod gen;
 mod lex;
 mod nf;
+mod ordertest;
 mod props;
 mod val;
 
@@ -36,7 +37,9 @@ pub fn load_known(prop: &str) -> Known {
     for f in v["findings"].as_array().cloned().unwrap_or_default() {
         let id = f["id"].as_str().unwrap_or("?").to_string();
         let what = f["what"].as_str().unwrap_or("").to_string();
-        let inst = f["instances"].as_array().cloned().unwrap_or_default();
+        // instances are identified by the 64-bit FNV-1a hash of their key "class|config[ range]|program"
+        // (the clear-text keys of a few of them are kept under "examples" for the reader)
+        let inst = f["instance_hashes"].as_array().cloned().unwrap_or_default();
         for i in &inst {
             if let Some(s) = i.as_str() {
                 k.by_key.insert(s.to_string(), id.clone());
@@ -66,6 +69,7 @@ fn failure_json(prop: &str, f: &Failure) -> Value {
         "config": f.cfg.key(),
         "width": if f.width == usize::MAX { json!("max") } else { json!(f.width) },
         "widths_failing": f.nwidths,
+        "width_max": if f.wmax == usize::MAX { json!("max") } else { json!(f.wmax) },
         "range": match f.range { None => Value::Null, Some((s, e)) => json!([s, e]) },
         "detail": f.detail,
         "output": f.output,
@@ -92,6 +96,8 @@ fn main() {
             std::process::exit(check(&prop, &tier, emit));
         }
         "replay" => std::process::exit(replay(&args[2])),
+        "ordertest" => ordertest::run(),
+        "dump" => ordertest::dump(&args[2]),
         "fmt" => {
             let text = std::fs::read_to_string(&args[2]).unwrap();
             let w = args.get(3).map(|s| s.parse().unwrap()).unwrap_or(120);
@@ -150,7 +156,7 @@ fn finish(prop: &str, tier: &str, engine: &str, stats: Stats, failures: Vec<Fail
     let mut reproduced: BTreeMap<String, usize> = BTreeMap::new();
     let mut unlisted: Vec<&Failure> = vec![];
     for (k, f) in &by_key {
-        match known.by_key.get(k) {
+        match known.by_key.get(&format!("{:016x}", fnv(k))) {
             Some(id) => *reproduced.entry(id.clone()).or_insert(0) += 1,
             None => unlisted.push(f),
         }
@@ -167,7 +173,7 @@ fn finish(prop: &str, tier: &str, engine: &str, stats: Stats, failures: Vec<Fail
                 "group": g,
                 "count": fs.len(),
                 "examples": fs.iter().take(6).map(|f| failure_json(prop, f)).collect::<Vec<_>>(),
-                "instances": fs.iter().map(|f| f.key()).collect::<Vec<_>>(),
+                "instances": fs.iter().map(|f| json!({"key": f.key(), "output": f.output, "detail": f.detail, "wmin": f.width, "wmax": f.wmax, "n": f.nwidths})).collect::<Vec<_>>(),
             }));
         }
         std::fs::write(&path, serde_json::to_string_pretty(&json!({ "property": prop, "groups": out })).unwrap()).unwrap();
